@@ -30,6 +30,9 @@ def lnBeginSig : Str :=
 def lnEndSig : Str :=
   dashes5 ++ [69, 78, 68, 32, 80, 71, 80, 32, 83, 73, 71, 78, 65, 84, 85, 82, 69] ++ dashes5 ++ [10]
 
+/-- the armor header key of messages whose cleartext is not dash-escaped -/
+def sNotDashEscaped : Str := [78, 111, 116, 68, 97, 115, 104, 69, 115, 99, 97, 112, 101, 100, 58]
+
 /-- `line.startswith('-----') and line.rstrip().endswith('-----')` -/
 def armorLike (line : Str) : Bool := startsWith line dashes5 && endsWith (rstrip line) dashes5
 
@@ -75,7 +78,10 @@ def loadStep (s : LoadSt) (line : Str) : Except LoadErr LoadSt :=
     else loadCommon s line
   | .preamble =>
     let s := { s with pgpData := s.pgpData ++ line }
-    if !isBlank line then .ok s
+    if !isBlank line then
+      -- header lines are skipped; a NotDashEscaped message is refused, because
+      -- the loader always undoes dash-escaping (repair of finding F11)
+      (if startsWith line sNotDashEscaped then .error .syntax else .ok s)
     else loadCommon { s with st := .signed } line
   | .signed =>
     let s := { s with pgpData := s.pgpData ++ line }
